@@ -659,12 +659,20 @@ func (e *Exec) treeStep(i int, s *Step) (*Violation, bool) {
 		}
 	}
 	if e.or&oShape != 0 && (heavy || ts.m.Len() <= 300) {
+		before := ts.lastHist
 		if v := e.checkShapeStep(i, s, ts, mutated); v != nil {
 			return v, false
 		}
+		if mutated && ts.m.Len() <= 300 {
+			// evidence only: which insertion path this step took
+			after := ts.lastHist
+			ts.lastHist = before
+			guard(func() { e.probeTransitions(ts, api.Dump(), s, sizeBefore, false) })
+			ts.lastHist = after
+		}
 	} else if mutated && e.or&oShape == 0 && ts.m.Len() <= 300 {
 		// probes only (never a verdict): which structural transitions the run reached
-		guard(func() { e.probeTransitions(ts, api.Dump(), s, sizeBefore) })
+		guard(func() { e.probeTransitions(ts, api.Dump(), s, sizeBefore, true) })
 	}
 	if mustNotChange {
 		if v := e.checkDigest(i, s, ts, digBefore, digNoValBefore, idsBefore); v != nil {
@@ -1198,7 +1206,7 @@ func (e *Exec) histTransitions(ts *treeState, h [4]int) {
 }
 
 // probeTransitions: evidence only.
-func (e *Exec) probeTransitions(ts *treeState, d *art.VerifNode, s *Step, sizeBefore int) {
+func (e *Exec) probeTransitions(ts *treeState, d *art.VerifNode, s *Step, sizeBefore int, withHist bool) {
 	var h [4]int
 	classHist(d, &h)
 	innerBefore := ts.lastHist[0] + ts.lastHist[1] + ts.lastHist[2] + ts.lastHist[3]
@@ -1227,6 +1235,9 @@ func (e *Exec) probeTransitions(ts *treeState, d *art.VerifNode, s *Step, sizeBe
 	}
 	if s.Op == "del" && innerAfter < innerBefore {
 		e.st.Probes["delete_merged_node"]++
+	}
+	if !withHist {
+		return
 	}
 	e.histTransitions(ts, h)
 	if len(e.st.Shapes) < 4096 {
